@@ -28,7 +28,7 @@ META = {
         ],
         "floors": {"quick": {"compiled": 1500, "disagreements_checked": 3000, "distinct_nontrivial": 500},
                    "thorough": {"compiled": 30000, "disagreements_checked": 100000, "distinct_nontrivial": 10000}},
-        "soft_s": {"quick": 600, "thorough": 2400},
+        "soft_s": {"quick": 600, "thorough": 1200},
     },
     "C02": {
         "level": "translation_validation",
@@ -39,7 +39,7 @@ META = {
             "reference value = SimpleEvaluator on the instantiated source context"],
         "floors": {"quick": {"compiled": 1000, "disagreements_checked": 5000, "messages": 20000, "distinct_nontrivial": 300},
                    "thorough": {"compiled": 20000, "disagreements_checked": 150000, "messages": 500000, "distinct_nontrivial": 8000}},
-        "soft_s": {"quick": 600, "thorough": 2400},
+        "soft_s": {"quick": 600, "thorough": 1200},
     },
 }
 
@@ -448,7 +448,7 @@ META["C19"] = {
                          "distinct_nontrivial": 2500},
                "thorough": {"plaintext_joins_compared": 60000, "compiled": 600, "compiled_executions": 1000, "three_party_executions": 1000,
                             "distinct_nontrivial": 50000}},
-    "soft_s": {"quick": 600, "thorough": 3000},
+    "soft_s": {"quick": 600, "thorough": 1200},
 }
 
 
@@ -468,7 +468,7 @@ META["C20"] = {
     ],
     "floors": {"quick": {"points_checked": 100000, "compiled": 15, "compiled_points_checked": 900, "distinct_nontrivial": 60},
                "thorough": {"points_checked": 2000000, "compiled": 80, "compiled_points_checked": 5000, "distinct_nontrivial": 600}},
-    "soft_s": {"quick": 600, "thorough": 3000},
+    "soft_s": {"quick": 600, "thorough": 1200},
 }
 
 
@@ -526,7 +526,7 @@ META["C03"] = {
                          "sampled_executions": 80000, "distinct_nontrivial": 150},
                "thorough": {"executions": 20000000, "assignment_pairs_compared": 8000, "tapes_enumerated": 20000000, "sampled_templates": 80,
                             "sampled_executions": 4000000, "distinct_nontrivial": 3000}},
-    "soft_s": {"quick": 600, "thorough": 3000},
+    "soft_s": {"quick": 600, "thorough": 1200},
 }
 PY_SERVES.append("C03")
 
